@@ -75,13 +75,14 @@ Definition resolve (ak : akind) (m : rw) (dims : list Z) (stor : Z) (idxs : list
       | _ => inr EOther
       end
   | _ =>
-      match ak, dims with
-      | AMember, _ :: _ :: _ :: _ =>
-          (* access/array.cpp:71 and simple_assignment.cpp:690 recognise obj.member[i][j] only when
-             exactly two subscripts sit on the member access; three or more fall through to the
-             generic path whose flat test against an empty value vector always fails *)
+      match ak, m, dims with
+      | AMember, Rd, _ :: _ :: _ :: _ =>
+          (* access/array.cpp:71 recognises obj.member[i][j] only when exactly two subscripts sit on
+             the member access; a read with three or more falls through to the generic path whose
+             flat test against an empty value vector always fails. (Writes are collected for any
+             rank by simple_assignment.cpp:690 and succeed.) *)
           inr EBounds
-      | _, _ =>
+      | _, _, _ =>
           if negb (Nat.eqb (List.length dims) (List.length idxs)) then inr EOther else
           match calc_flat dims (map (conv (narrows ak false m)) idxs) with
           | Some f => if f <? stor then inl f else inr EBounds
